@@ -320,9 +320,25 @@ def _run_model(case, ctx):
     else:
         lo, hi = GM.pressure_window(name, P)
         rng = dict(pressure_range=(float("%.8g" % (hi * 0.01)), float("%.8g" % (hi * 0.8))), loading_range=(0.05, 2.5))
-    model = GM.make_model(name, P, rmse=round(r.uniform(0.001, 0.2), 6), temperature=T, **rng)
-    iso = pygaps.ModelIsotherm(model=model, material=copy.deepcopy(mat), adsorbate=ads_name, temperature=Tst, **units, **copy.deepcopy(meta))
-    info = {"model": name, "params": P, "units": dict(iso.units), "meta": meta, "target": case["target"], "ranges": {k: list(v) for k, v in rng.items()}}
+    iso = None
+    if case["seed"] % 3 == 0 and name in GM.WELL_POSED_FIT:
+        # a model fitted from data (parameters, ranges and rmse are whatever the fit produced: numpy scalars, many digits)
+        Pf = GM.random_params(name, r, typed=False)
+        ps = GM.sample_pressures(name, Pf, r, 15)
+        m0 = GM.make_model(name, Pf, temperature=T)
+        ls = [float(numpy.asarray(m0.loading(x)).ravel()[0]) for x in ps]
+        if all(math.isfinite(x) and x > 0 for x in ls) and len(set(ls)) >= 5:
+            try:
+                iso = pygaps.ModelIsotherm(pressure=ps, loading=ls, model=name, material=copy.deepcopy(mat), adsorbate=ads_name, temperature=Tst, **units, **copy.deepcopy(meta))
+                P = dict(iso.model.params)
+                rng = dict(pressure_range=iso.model.pressure_range, loading_range=iso.model.loading_range)
+                ctx.count("models", fmt + "/fitted")
+            except Exception:
+                iso = None
+    if iso is None:
+        model = GM.make_model(name, P, rmse=round(r.uniform(0.001, 0.2), 6), temperature=T, **rng)
+        iso = pygaps.ModelIsotherm(model=model, material=copy.deepcopy(mat), adsorbate=ads_name, temperature=Tst, **units, **copy.deepcopy(meta))
+    info = {"model": name, "params": P, "units": dict(iso.units), "meta": meta, "target": case["target"], "ranges": {k: [float(x) for x in v] for k, v in rng.items()}}
     st, back, stage = _export_import(fmt, iso, case["target"], "%s-m%d" % (fmt, case["seed"]))
     label = "model"
     ctx.case([fmt, label, case["seed"]])
